@@ -38,6 +38,7 @@ func init() {
 		MinNontrivial: tierN(1500, 20000),
 		Required:      []string{"overlapping_pairs_same_expr", "op:select", "op:select-abandoned", "op:evaluate", "op:compile", "op:regexp"},
 		Families: []Family{
+			witnessFamily("C05"),
 			{Name: "rounds", N: tierN(4000, 60000), Run: c05Round},
 		},
 	})
